@@ -64,7 +64,7 @@ def g_str_items(rng, q):
 
 def g_lexeme(rng):
     k = rng.choice(['num', 'ident', 'identd', 'identu', 'fixed', 'fast', 'pct', 'dim', 'hash', 'atkw', 'atkw',
-                    'str', 'stri', 'stri', 'uriq', 'uriq', 'fn', 'fn', 'uri', 'uri', 'ur', 'cmt', 'cmt', 'cdc'])
+                    'str', 'stri', 'stri', 'uriq', 'uriq', 'fn', 'fn', 'uri', 'uri', 'ur', 'uri2', 'cmt', 'cmt', 'cdc'])
     if k == 'num':
         d = _digits(rng)
         return 'num,%s' % enc(d), d, ('NUMBER', d)
@@ -140,6 +140,12 @@ def g_lexeme(rng):
         u = rng.choice('Uu')
         h = ''.join(rng.choice(HEXQ) for _ in range(rng.randint(1, 6)))
         return 'ur,%s,%s' % (enc(u), enc(h)), u + '+' + h, ('UNICODE-RANGE', u + '+' + h)
+    if k == 'uri2':       # UNICODE-RANGE interval
+        u = rng.choice('Uu')
+        h = ''.join(rng.choice(HEXQ) for _ in range(rng.randint(1, 6)))
+        h2 = ''.join(rng.choice(HEXQ[:-1]) for _ in range(rng.randint(1, 6)))
+        t = u + '+' + h + '-' + h2
+        return 'uri2,%s,%s,%s' % (enc(u), enc(h), enc(h2)), t, ('UNICODE-RANGE', t)
     if k == 'cmt':
         pool = list(LETTERS) + CMT_EXTRA
         while True:
